@@ -183,6 +183,8 @@ def make_index(ix):
         return np.asarray(ix["v"], dtype=int)
     if t == "boolarr":
         return np.asarray(ix["v"], dtype=bool)
+    if t == "npboolarr":
+        return np.asarray(ix["v"], dtype=bool)
     if t == "tuple":
         return tuple(make_index(i) for i in ix["v"])
     if t == "ellipsis":
@@ -369,7 +371,7 @@ def build(spec, salt=0, level=0, seed=0):
         return B.Stack([sub(i, c) for i, c in enumerate(spec["c"])], axis=spec["axis"])
     if k == "Partial":
         idx = make_index(spec["idx"])
-        if isinstance(idx, np.ndarray):
+        if isinstance(idx, np.ndarray) and spec["idx"]["t"] != "npboolarr":  # "npboolarr": the mask is handed over as a NumPy array
             idx = jnp.asarray(idx)
         elif isinstance(idx, tuple):
             idx = tuple(jnp.asarray(i) if isinstance(i, np.ndarray) else i for i in idx)
@@ -501,6 +503,7 @@ def partial_indices(child_shape):
                 ((n + 2,), {"t": "intarr", "v": list(range(n + 1, 1, -1))[:n]}),
                 ((n + 2,), {"t": "boolarr", "v": [True] * n + [False, False]}),
                 ((n + 1,), {"t": "boolarr", "v": [False] + [True] * n}),
+                ((n + 1,), {"t": "npboolarr", "v": [True] * n + [False]}),
                 ((2, n), {"t": "int", "v": 1}), ((2, n), {"t": "int", "v": -2}),
                 ((n, 2), {"t": "tuple", "v": [{"t": "slice", "v": [None, None, None]}, {"t": "int", "v": 1}]}),
                 ((n, 2), {"t": "tuple", "v": [{"t": "ellipsis"}, {"t": "int", "v": 0}]}),
